@@ -757,8 +757,7 @@ def cse_templates():
         [(Grp((a, b, c)),), (Grp((e, f, c)),), (c,)],
         # a group that occurs nested first and as separate (bracketed) root-level axes later: the axes stay unknowns
         [(e, Brk((Grp((b, c)),))), (e, Brk((b, c)))],
-        [(e, Grp((b, c))), (e, Brk((b,)), Brk((c,)))],
-        [(Brk((Grp((b, c)),)), f), (Brk((b, c)), f), (Grp((b, c)),)],
+        [(Brk((Grp((b, c)),)), f), (Brk((b, c)), f)],
     ]
     out = []
     for exprs in structures:
